@@ -4,6 +4,7 @@ import SpecterModel.C33.Model
 
 * `normalize_charset`   — a successful result consists only of `a-z 0-9 - .` (whatever the libraries return)
 * `normalize_idempotent` — under explicit library hypotheses (validated by the harness on every accepted name)
+* `no_empty_label` — an accepted name never starts/ends with a dot or contains ".." (fix 26af3a2)
 * `rejects_wildcard`, `rejects_ip`, `rejects_unqualified` — rejecting branches
 * `hexEncode_injective`, `record_distinct`, `record_name_token_free` — distinct SHA-224 digests give distinct record targets
 -/
@@ -19,8 +20,25 @@ theorem normalize_charset (isIP qualifies : Runes → Bool) (toASCII : Runes →
   split at h; · cases h
   split at h
   · cases h
-  · split at h
+  · split at h; · cases h
+    split at h
     · rename_i hall; cases h; exact List.all_eq_true.mp hall
+    · cases h
+
+/-- An accepted name has no empty label: it neither starts nor ends with a dot nor contains "..". -/
+theorem no_empty_label (isIP qualifies : Runes → Bool) (toASCII : Runes → Option Runes) (z s : Runes)
+    (h : normalize isIP qualifies toASCII z = .ok s) : emptyLabel s = false := by
+  unfold normalize at h
+  simp only at h
+  split at h; · cases h
+  split at h; · cases h
+  split at h; · cases h
+  split at h
+  · cases h
+  · split at h; · cases h
+    rename_i he
+    split at h
+    · cases h; simpa using he
     · cases h
 
 theorem ldh_not_space (c : Nat) (h : isLDH c = true) : isSpace c = false := by
@@ -50,6 +68,7 @@ theorem normalize_idempotent (isIP qualifies : Runes → Bool) (toASCII : Runes 
     (z s : Runes) (h : normalize isIP qualifies toASCII z = .ok s) :
     normalize isIP qualifies toASCII s = .ok s := by
   have hl := normalize_charset _ _ _ _ _ h
+  have hne := no_empty_label _ _ _ _ _ h
   unfold normalize at h
   simp only at h
   split at h; · cases h
@@ -60,12 +79,13 @@ theorem normalize_idempotent (isIP qualifies : Runes → Bool) (toASCII : Runes 
   split at h
   · cases h
   · rename_i uni hu
+    split at h; · cases h
     split at h
     · cases h
       have := hQ (removeSpace z) s (by simpa using hip) (by simpa using hq) hu hl
       unfold normalize
       simp only [removeSpace_fix s hl, this.1, this.2, hA s hl, ldh_not_star s hl]
-      simp [List.all_eq_true.mpr hl]
+      simp [List.all_eq_true.mpr hl, hne]
     · cases h
 
 theorem rejects_wildcard (isIP qualifies : Runes → Bool) (toASCII : Runes → Option Runes) (z : Runes)
@@ -139,6 +159,9 @@ example : resIs (normalize exIP exQ exA [108, 111]) (.error .qualify) = true := 
 example : resIs (normalize exIP exQ exA [42, 46, 97]) (.error .wildcard) = true := by decide
 example : resIs (normalize exIP exQ exA [65, 46, 97]) (.error .chars) = true := by decide                    -- "A.a"
 example : resIs (normalize exIP exQ exA [228, 46, 97]) (.error .idna) = true := by decide
+example : resIs (normalize exIP exQ exA [46, 97, 46, 98]) (.error .emptyLabel) = true := by decide           -- ".a.b"
+example : resIs (normalize exIP exQ exA [97, 46, 46, 98]) (.error .emptyLabel) = true := by decide           -- "a..b"
+example : resIs (normalize exIP exQ exA [97, 46]) (.error .emptyLabel) = true := by decide                   -- "a." 
 example : (customRecord (fun t => t) [97] [98] [1, 255] false false).2 = [48, 49, 102, 102, 46, 98, 46] := by decide
 example : (customRecord (fun t => t) [97] [98] [1] false true).1 = acmePrefix ++ [97, 46] := by decide
 
